@@ -17,11 +17,24 @@
 //! * conversions: 4-9 of the 180 accepted numeric / bit-string `X_TO_Y` pairs (acceptance probed
 //!   pair by pair), source latched from the input image (type extremes), result in a Y variable.
 //!
+//! * generic / overloaded forms with MIXED operand types (`generic`): 6-14 calls per case drawn
+//!   from the 1 834 operand-type combinations of ADD SUB MUL DIV EXPT MOVE MIN MAX LIMIT SEL MUX
+//!   GT GE EQ LE LT NE ABS SQRT LN LOG EXP SIN COS TAN ASIN ACOS ATAN ATAN2 TRUNC that the compiler
+//!   accepts over SINT..ULINT, REAL, LREAL, TIME, LTIME, BYTE..LWORD (`combos.rs`, probed
+//!   combination by combination, every operand ORDER: mixed integer widths, mixed signedness,
+//!   integer with real, REAL with LREAL, duration x number and number x duration, mixed
+//!   bit-string widths), the result assigned to a variable of exactly the result type the
+//!   checker infers; operands are either latched from the input image (type extremes, IN of
+//!   LIMIT far outside [MN, MX]) or small constants;
+//!
 //! Statements that can fault for some argument values (ABS of the minimum, MUX selector out of
 //! range, narrowing conversions, time arithmetic overflow) are emitted LAST in XExt, in a
 //! tape-chosen order, so a fault does not hide the calls before it. Excluded exactly: negative
 //! shift counts (C01 F34: the count is a USINT), non-ASCII strings (C01 F35), BCD conversions
 //! (C01 F38), STRING_TO_CHAR of a string whose length is not 1 (C01 F39).
+
+#[path = "combos.rs"]
+mod combos;
 
 use super::{Ext, IoIn, B};
 use crate::engine::tape::Reader;
@@ -527,13 +540,18 @@ pub(super) fn generate(r: &mut Reader, b: &mut B, x: &mut Ext) {
         s.risky.push(format!("{q} := MUX(xsk, xwx1, xwx2, xwx0);"));
     }
 
+    // ------------------------------------------------------------------ generic overloads
+    if s.r.chance(5, 6) {
+        generic(&mut s);
+    }
+
     // ---- counting down over the cycles: 2, 1, 0, -1, ...
     s.b.s("xcd := xcd - INT#1;");
 
     // ---- statements that can fault go last, in a tape-chosen order (at most 10 of them)
     let mut risky = std::mem::take(&mut s.risky);
     let mut order = Vec::new();
-    while !risky.is_empty() && order.len() < 10 {
+    while !risky.is_empty() && order.len() < 14 {
         let i = s.r.pick(risky.len());
         order.push(risky.remove(i));
     }
@@ -543,4 +561,227 @@ pub(super) fn generate(r: &mut Reader, b: &mut B, x: &mut Ext) {
         ty: DTy::Bits(8),
         retain: false,
     };
+}
+
+// ---------------------------------------------------------------------- generic overloads
+
+const GTYPES: [(&str, char); 16] = [
+    ("SINT", 'B'),
+    ("INT", 'W'),
+    ("DINT", 'D'),
+    ("LINT", 'L'),
+    ("USINT", 'B'),
+    ("UINT", 'W'),
+    ("UDINT", 'D'),
+    ("ULINT", 'L'),
+    ("REAL", 'D'),
+    ("LREAL", 'L'),
+    ("TIME", '-'),
+    ("LTIME", '-'),
+    ("BYTE", 'B'),
+    ("WORD", 'W'),
+    ("DWORD", 'D'),
+    ("LWORD", 'L'),
+];
+
+fn gidx(t: &str) -> usize {
+    GTYPES.iter().position(|(n, _)| *n == t).unwrap_or(0)
+}
+
+fn gdty(t: &str) -> DTy {
+    match t {
+        "BOOL" => DTy::Elem(Elem::Bool),
+        "SINT" => DTy::Elem(Elem::SInt),
+        "INT" => DTy::Elem(Elem::Int),
+        "DINT" => DTy::Elem(Elem::DInt),
+        "LINT" => DTy::Elem(Elem::LInt),
+        "USINT" => DTy::Elem(Elem::USInt),
+        "UINT" => DTy::Elem(Elem::UInt),
+        "UDINT" => DTy::Elem(Elem::UDInt),
+        "ULINT" => DTy::Elem(Elem::ULInt),
+        "REAL" => DTy::Elem(Elem::Real),
+        "LREAL" => DTy::Elem(Elem::LReal),
+        "TIME" => DTy::Elem(Elem::Time),
+        "BYTE" => DTy::Bits(8),
+        "WORD" => DTy::Bits(16),
+        "DWORD" => DTy::Bits(32),
+        "LWORD" => DTy::Bits(64),
+        other => tagged(other),
+    }
+}
+
+fn glit(t: &str, v: u32) -> String {
+    match t {
+        "REAL" | "LREAL" => format!("{t}#{v}.0"),
+        "TIME" => format!("T#{v}s"),
+        "LTIME" => format!("LTIME#{v}s"),
+        _ => format!("{t}#{v}"),
+    }
+}
+
+fn is_signed(t: &str) -> bool {
+    matches!(t, "SINT" | "INT" | "DINT" | "LINT")
+}
+fn is_unsigned(t: &str) -> bool {
+    matches!(t, "USINT" | "UINT" | "UDINT" | "ULINT")
+}
+
+/// Operand variable of type `t`: slot 0/1 = the two operands of a call; `extreme` = latched
+/// from the input image (TIME / LTIME: a large constant), else a small constant (3 / 2).
+fn goperand(s: &mut S, t: &str, slot: usize, extreme: bool) -> String {
+    let i = gidx(t);
+    let (_, size) = GTYPES[i];
+    if extreme {
+        let name = format!("xge{i}_{slot}");
+        if !s.b.has(&name) {
+            if size == '-' {
+                let init = if t == "TIME" {
+                    ["T#50000d", "T#-40000d"][slot]
+                } else {
+                    ["LTIME#50000d", "LTIME#-40000d"][slot]
+                };
+                s.b.var(&name, t, gdty(t), Some(init));
+            } else {
+                let addr = format!("%I{size}{}", 1100 + 16 * i + 8 * slot);
+                s.b.at(&name, &addr, t, gdty(t));
+                s.x.inputs.push(IoIn {
+                    addr,
+                    size,
+                    range: None,
+                    picks: vec![],
+                });
+            }
+        }
+        name
+    } else {
+        let name = format!("xgt{i}_{slot}");
+        if !s.b.has(&name) {
+            let init = glit(t, [3, 2][slot]);
+            s.b.var(&name, t, gdty(t), Some(&init));
+        }
+        name
+    }
+}
+
+fn generic(s: &mut S) {
+    let table = combos::COMBOS;
+    // function groups with weights (duration arithmetic and LIMIT are the thin spots)
+    const FUNS: [(&str, u32); 16] = [
+        ("MUL", 5),
+        ("DIV", 4),
+        ("ADD", 3),
+        ("SUB", 3),
+        ("LIMIT", 5),
+        ("MIN", 3),
+        ("MAX", 3),
+        ("SEL", 3),
+        ("MUX", 3),
+        ("EXPT", 1),
+        ("MOVE", 1),
+        ("ABS", 1),
+        ("cmp", 2),
+        ("real1", 1),
+        ("ATAN2", 1),
+        ("TRUNC", 1),
+    ];
+    if !s.b.has("xgk") {
+        s.b.at("xgk", "%IB408", "USINT", DTy::Elem(Elem::USInt));
+        s.x.inputs.push(IoIn {
+            addr: "%IB408".into(),
+            size: 'B',
+            range: None,
+            picks: vec![0, 1],
+        });
+    }
+    let weights: Vec<u32> = FUNS.iter().map(|(_, w)| *w).collect();
+    let n_calls = 6 + s.r.pick(9);
+    for _ in 0..n_calls {
+        let group = FUNS[s.r.weighted(&weights)].0;
+        let duration_only = s.r.chance(1, 5);
+        let cands: Vec<&(&str, &[&str], &str)> = table
+            .iter()
+            .filter(|(f, ts, _)| {
+                let in_group = match group {
+                    "cmp" => matches!(*f, "GT" | "GE" | "EQ" | "LE" | "LT" | "NE"),
+                    "real1" => matches!(
+                        *f,
+                        "SQRT" | "LN" | "LOG" | "EXP" | "SIN" | "COS" | "TAN" | "ASIN" | "ACOS" | "ATAN"
+                    ),
+                    g => *f == g,
+                };
+                in_group
+                    && (!duration_only || ts.iter().any(|t| matches!(*t, "TIME" | "LTIME")))
+            })
+            .collect();
+        let cands = if cands.is_empty() {
+            table.iter().filter(|(f, _, _)| *f == "MUL").collect()
+        } else {
+            cands
+        };
+        let (f, ts, rt) = *cands[s.r.pick(cands.len())];
+        let mixed_sign = ts.iter().any(|t| is_signed(t)) && ts.iter().any(|t| is_unsigned(t));
+        let mut any_extreme = false;
+        let mut op = |s: &mut S, t: &str, slot: usize, allow_extreme: bool| -> String {
+            let extreme = allow_extreme && s.r.chance(3, 5);
+            any_extreme |= extreme;
+            goperand(s, t, slot, extreme)
+        };
+        let call = match (f, ts.len()) {
+            ("LIMIT", _) => {
+                // MN = 2, MX = 3 (constants of the first type), IN of the second type, mostly
+                // far outside [MN, MX]
+                let mn = op(s, ts[0], 1, false);
+                let mx = op(s, ts[0], 0, false);
+                let inp = op(s, ts[1], 0, true);
+                format!("LIMIT({mn}, {inp}, {mx})")
+            }
+            ("SEL", _) => {
+                let a = op(s, ts[0], 0, true);
+                let b = op(s, ts[1], 1, true);
+                format!("SEL(xsg, {a}, {b})")
+            }
+            ("MUX", _) => {
+                let a = op(s, ts[0], 0, true);
+                let b = op(s, ts[1], 1, true);
+                format!("MUX(xgk, {a}, {b})")
+            }
+            (_, 1) => {
+                let a = op(s, ts[0], 0, true);
+                format!("{f}({a})")
+            }
+            _ => {
+                let a = op(s, ts[0], 0, true);
+                // the divisor is a small constant: the input image starts at zero, and a
+                // DivisionByZero in every first cycle would teach nothing
+                let b = op(s, ts[1], 1, f != "DIV");
+                format!("{f}({a}, {b})")
+            }
+        };
+        let q = s.res(rt, gdty(rt));
+        let arithmetic = matches!(f, "ADD" | "SUB" | "MUL" | "DIV" | "EXPT" | "ABS" | "TRUNC")
+            || matches!(
+                f,
+                "SQRT" | "LN" | "LOG" | "EXP" | "SIN" | "COS" | "TAN" | "ASIN" | "ACOS" | "ATAN"
+            );
+        let st = format!("{q} := {call};");
+        // a fault is possible with extreme operands: arithmetic (Overflow, DivisionByZero) and
+        // mixed signedness with a negative operand (C01 F5, TypeMismatch)
+        if any_extreme && (arithmetic || mixed_sign) {
+            s.risky.push(st);
+        } else {
+            s.b.s(st);
+        }
+        let mixed = ts.len() > 1 && ts[0] != ts[1];
+        s.x.labels.push(format!(
+            "std:gen:{}:{}",
+            if matches!(group, "cmp" | "real1") { group } else { f },
+            if ts.iter().any(|t| matches!(*t, "TIME" | "LTIME")) {
+                "duration"
+            } else if mixed {
+                "mixed"
+            } else {
+                "same"
+            }
+        ));
+    }
 }
